@@ -5,25 +5,25 @@ import json, os, subprocess, sys
 suffix = sys.argv[1]
 want = sys.argv[2:]
 AVOID = {
- "C01": "OFFSET dropped without LIMIT; time-dimension truncation changes; splicing a computed dimension's SQL unparenthesised into a pushed-down filter",
- "C02": "composite key concatenated without separator; mixed fan-out/non-fan-out references; skipping symmetric aggregates when a one_to_many hop joins on part of the target's composite key",
- "C03": "NULL-safe join replaced by = for time dimensions; pushing ORDER BY/LIMIT into the per-model sub-queries",
- "C04": "bare IS NULL filter no longer forcing INNER; whitespace inside literals; rewriting a key-only filter onto the foreign key (join elimination)",
- "C05": "graph-level metric lookup order; select aliases leaking between CTEs / sub-selects",
- "C06": "memoising metric SQL without model context; dropping parentheses around substituted components with * or / at the top",
- "C07": "coarser granularity computed from declared base bucket; suppressing default time dimensions when another model's time dimension is requested",
- "C08": "granularity test admitting week->year; declared build ranges; routing filtered SUM measures stored as SUM(CASE ... ELSE 0)",
- "C09": "dropping a name from the week exception; GRANULARITY_HIERARCHY as a defaultdict polluted by the recommender",
- "C10": "skipping a second relationship between a linked pair; registration interleaved with lookups; Dijkstra with a swapped cost tuple",
- "C11": "omitting metric sql when equal to the name; not exporting a relationship primary_key equal to 'id'",
- "C12": "MetricFlow expr omitted when equal to measure name; Cube exporter marking a differently named dimension as primary key",
- "C13": "Cube rule requiring measures:; moving the BSL '_.' rule ahead of other rules",
- "C15": "path memo filled with a reversed path; in-place extension of a composite primary-key list during compile",
- "C16": "multi-pass parameter substitution; non-builtin value types; folding newlines in filters after interpolation",
- "C17": "ROWS frame chosen from declared rather than queried granularity; lag offsets derived by floor division (qoq at week grain)",
- "C18": "merge DELETE boundary truncated to the bucket; first refresh on an empty rollup; memoising the watermark on the PreAggregation object",
- "C19": "dirty flag cleared before the rebuild; memoised predecessor tree published before being filled",
- "C20": "granular time dimensions left out of the join check; supported_granularities consulted before the dimension type",
+ "C01": "OFFSET dropped without LIMIT; time-dimension truncation changes; splicing a computed dimension's SQL unparenthesised into a pushed-down filter; count_distinct over the key column emitted as COUNT(raw)",
+ "C02": "composite key concatenated without separator; mixed fan-out/non-fan-out references; skipping symmetric aggregates when a one_to_many hop joins on part of the target's composite key; mislabelled junction hop cardinality in build_adjacency",
+ "C03": "NULL-safe join replaced by = for time dimensions; pushing ORDER BY/LIMIT into the per-model sub-queries; memoised join paths not cleared by build_adjacency()",
+ "C04": "bare IS NULL filter no longer forcing INNER; whitespace inside literals; rewriting a key-only filter onto the foreign key (join elimination); splicing a joined model's dimension SQL unparenthesised",
+ "C05": "graph-level metric lookup order; select aliases leaking between CTEs / sub-selects; ORDER BY direction inherited from the previous key",
+ "C06": "memoising metric SQL without model context; dropping parentheses around substituted components with * or / at the top; skipping fill_nulls_with when the formula is a COALESCE",
+ "C07": "coarser granularity computed from declared base bucket; suppressing default time dimensions when another model's time dimension is requested; joining multi-fact sub-results on the finest granularity only",
+ "C08": "granularity test admitting week->year; declared build ranges; routing filtered SUM measures stored as SUM(CASE ... ELSE 0); query-side sets shared between candidate rollups",
+ "C09": "dropping a name from the week exception; GRANULARITY_HIERARCHY as a defaultdict polluted by the recommender; lru_cache'd nesting sets mutated in place",
+ "C10": "skipping a second relationship between a linked pair; registration interleaved with lookups; Dijkstra with a swapped cost tuple; dropping the explicit primary_key of a junction relationship",
+ "C11": "omitting metric sql when equal to the name; not exporting a relationship primary_key equal to 'id'; exporting models in reference order",
+ "C12": "MetricFlow expr omitted when equal to measure name; Cube exporter marking a differently named dimension as primary key; Hex importer expanding of: to a like-named computed dimension",
+ "C13": "Cube rule requiring measures:; moving the BSL '_.' rule ahead of other rules; skipping files when any component of the given path is hidden",
+ "C15": "path memo filled with a reversed path; in-place extension of a composite primary-key list during compile; filter-only models appended in set-iteration order",
+ "C16": "multi-pass parameter substitution; non-builtin value types; folding newlines in filters after interpolation; allowing runs of hyphens in unquoted values",
+ "C17": "ROWS frame chosen from declared rather than queried granularity; lag offsets derived by floor division (qoq at week grain); partition list extended in place by the grain-to-date branch",
+ "C18": "merge DELETE boundary truncated to the bucket; first refresh on an empty rollup; memoising the watermark on the PreAggregation object; calendar lookbacks folded into day counts",
+ "C19": "dirty flag cleared before the rebuild; memoised predecessor tree published before being filled; path memo cleared at the end of every rebuild (test-then-read race)",
+ "C20": "granular time dimensions left out of the join check; supported_granularities consulted before the dimension type; dependencies substituted in name order instead of longest-first",
 }
 props = {json.loads(l)["id"]: json.loads(l) for l in open("/verif/properties.jsonl")}
 os.makedirs("/tmp/seed", exist_ok=True)
@@ -64,7 +64,9 @@ DELIVER into /tmp/seed/out_{sid}/ :
                 SQL on an in-memory DuckDB), not by comparing against strings copied from the generator.
   notes.md    - what you changed, which clause of the property breaks, why the tests miss it, exactly what is needed to manifest.
   verify.log  - the last lines of the FULL pytest run WITH the patch (showing the pass count), then the demo's output/exit code
-                with the patch and without it (use `git stash` / `git stash pop`).
+                with the patch and without it (do NOT use git stash, it is shared between worktrees: save your diff to a file,
+                `git checkout -- .`, run, then `git apply` the file again). tests/test_performance.py has wall-clock assertions that
+                fail under machine load: if only those fail, re-run that file alone.
 You must verify all of this yourself before finishing. Leave the worktree with the patch applied (uncommitted).
 Final answer: at most 6 lines (file changed, mechanism, what it needs to manifest, test-suite result, demo results)."""
     open(os.path.join(out, "PROMPT.txt"), "w").write(prompt)
